@@ -67,8 +67,10 @@ Definition claim_ok (cl : option (Z * Z)) (o : cview) : bool :=
    assigned), then 10 / 11 (a scheduling cycle respected the allocate-once gate / the restricted
    fit), judged on the dumps before and after the step *)
 Definition step_code (cl : option (Z * Z)) (h : hop) (f : flag) (prev : list iview) (v : cview) : Z :=
-  let c := prop_view (fst f) (snd f) v in
-  if c =? 0 then (if claim_ok cl v then sched_code h prev (o_infos v) else 8) else c.
+  let s := sched_code h prev (o_infos v) in
+  if negb (s =? 0) then s
+  else let c := prop_view (fst f) (snd f) v in
+       if c =? 0 then (if claim_ok cl v then 0 else 8) else c.
 
 (* claims are computed along the model's run *)
 Fixpoint claims (c : cache) (hs : list hop) : list (option (Z * Z)) :=
